@@ -503,9 +503,8 @@ theorem abs_create {st : St V} {name : String} (rows' : List (List V)) (c : List
   intro p hp
   rw [hold p hp]
 
-/-- createAnalyticalFeature; a list initialiser must cover the track -/
-theorem sim_create (name : String) (init : Init V)
-    (hok : match init with | .scalar _ => True | .list l => n ≤ l.length) :
+/-- createAnalyticalFeature (a list initialiser shorter than the track is refused on both sides, nothing changes) -/
+theorem sim_create (name : String) (init : Init V) :
     Sim n (fun _ => True) (createC name init) (createA name init) := by
   intro st h
   unfold createC createA
@@ -537,10 +536,10 @@ theorem sim_create (name : String) (init : Init V)
               (fun p hp => colAt_map_append_old _ _ _ (hlt p hp))
               (by rw [colAt_map_append_new _ _ _ h.rows, h.size])]
         | list l =>
-          simp only at hok ⊢
-          have hl : ¬ (l.length < n) := by omega
-          have hl' : ¬ (l.length < st.rows.length) := by rw [h.size]; exact hl
-          simp only [hl, hl', if_false]
+          simp only [h.size]
+          by_cases hl : l.length < n
+          · simp only [hl, if_true]; sim_done h
+          simp only [hl, if_false]
           refine ⟨inv_create h hf _ (appendCol_length _ _) ?_, ?_, fun _ _ => trivial⟩
           · exact appendCol_rows _ _ _ h.rows (by rw [h.size]; omega)
           · rw [abs_create (st := st) (name := name) _ (l.take n)
